@@ -136,6 +136,8 @@ def tags(t):
         elif ev == "env_pod" and (not r["api"] or r["loc"] != "run"): s.add("pod_vanished")
         elif ev == "env_pod" and r["sticky"]: s.add("sticky")
         elif ev == "cl_end": s.add("cloud_call")
+        elif ev in ("put_end", "del_end") and not r["ok"]: s.add("db_write_fault")
+        elif ev == "env_disturb": s.add("gc_cleanup_fault")
     return s
 
 
